@@ -25,6 +25,11 @@ FAIL_PATTERNS = [
     ('possible bit shift underflow/overflow', 'overflow'),
     ('unable to prove assertion safety condition', 'overflow'),
     ('loop must have a decreases clause', 'terminates'),
+    # built-in index / union-field checks of this Verus version (native `a[i]` on slices and arrays)
+    ('precondition not met', 'call-requires'),
+    ('requirement not met', 'call-requires'),
+    ('loop invariant not satisfied', 'inv-preserve'),
+    ('bitvector assertion not satisfied', 'assert'),
 ]
 
 
@@ -143,8 +148,7 @@ def _run_unit(unit_name, defines=(), canary=None, seed=0, rlimit=None, tag='main
                 lm = lines.get(str(s['line_start']))
                 if lm:
                     callee_clause = (lm.get('fn') or lm.get('prelude') or 'raw') + ':' + (lm.get('clause') or 'requires')
-                txt = s.get('text', [{}])[0].get('text', '').strip()
-            clause = 'call-requires(%s)' % (callee_clause or (sec[0]['text'][0]['text'].strip() if sec else '?'))
+            clause = 'call-requires(%s)' % (callee_clause or (sec[0]['text'][0]['text'].strip() if sec and sec[0].get('text') else '?'))
         if clause is None:
             clause = 'safety:' + kind
         # for src: if primary is in contract, use secondary body span
